@@ -1,6 +1,7 @@
 import EpgVerif.Props.C05
 import EpgVerif.Props.C05Path
 import EpgVerif.Tie.PhysSites
+import EpgVerif.Props.C05Att
 open EpgVerif.Props.C05
 #print axioms ramp_integral
 #print axioms bmatRamp_is_integral
@@ -23,3 +24,5 @@ open EpgVerif.Props.C05
 #print axioms pathway_expansion
 #print axioms diag_comp
 #print axioms diffuse_is_diag
+#print axioms EpgVerif.Props.C05.att_zero
+#print axioms EpgVerif.Props.C05.att_pathway
